@@ -220,6 +220,36 @@ impl Sched {
     }
 }
 
+/// The interceptor of a long-lived Archive handle ("session"): the transport is created once, each
+/// call made through the handle installs its own ActorIcpt here for the duration of the call.
+#[derive(Default)]
+pub struct SwitchIcpt {
+    inner: Mutex<Option<Arc<ActorIcpt>>>,
+}
+
+impl SwitchIcpt {
+    pub fn set(&self, i: Option<Arc<ActorIcpt>>) {
+        *self.inner.lock().unwrap() = i;
+    }
+    fn cur(&self) -> Option<Arc<ActorIcpt>> {
+        self.inner.lock().unwrap().clone()
+    }
+}
+
+impl Interceptor for SwitchIcpt {
+    fn before(&self, op: &Op<'_>) -> Decision {
+        match self.cur() {
+            Some(i) => i.before(op),
+            None => Decision::Proceed,
+        }
+    }
+    fn after(&self, op: &Op<'_>, outcome: &Outcome<'_>) {
+        if let Some(i) = self.cur() {
+            i.after(op, outcome)
+        }
+    }
+}
+
 pub struct ActorIcpt {
     pub name: String,
     root: PathBuf,
